@@ -150,8 +150,12 @@ func c10doc(c C10Case, cc c10conc, ev map[string]interface{}, fail func(string, 
 			resps.WriteString(layoutResponse((&url.URL{Path: cc.objPath(c.Srv, o.Path)}).String(), props, c.Layout, d, dns, absent...))
 		}
 	case "cols":
-		// the home set itself comes first (not a calendar / address book: must be skipped by the client)
-		resps.WriteString(layoutResponse("/u/home/", []propXML{{"<" + d + "resourcetype><" + d + "collection/></" + d + "resourcetype>", false}}, c.Layout, d, dns))
+		// the home set itself (not a calendar / address book: to be skipped by the client because of its type, wherever it stands
+		// in the answer -- first, as most servers write it, last ("homelast"), or not at all ("nohome"))
+		homeResp := layoutResponse("/u/home/", []propXML{{"<" + d + "resourcetype><" + d + "collection/></" + d + "resourcetype>", false}}, c.Layout, d, dns)
+		if c.Layout != "homelast" && c.Layout != "nohome" {
+			resps.WriteString(homeResp)
+		}
 		for _, col := range c.Cols {
 			props := []propXML{{"<" + d + "resourcetype><" + d + "collection/><" + cp + colType + "/></" + d + "resourcetype>", false}}
 			var absent []string
@@ -189,6 +193,9 @@ func c10doc(c C10Case, cc c10conc, ev map[string]interface{}, fail func(string, 
 			}
 			want = append(want, objRow{"path": col.Path, "name": col.Name, "desc": col.Desc, "max": col.Max, "sup": col.Sup})
 			resps.WriteString(layoutResponse((&url.URL{Path: cc.colPath[col.Path]}).String(), props, c.Layout, d, dns, absent...))
+		}
+		if c.Layout == "homelast" {
+			resps.WriteString(homeResp)
 		}
 	}
 	ev["want"] = want
